@@ -8,6 +8,169 @@ FORBIDDEN_CTORS = {"float", "Decimal", "Quantity", "Units", "PVLModule", "PVLGro
                    "OrderedMultiDict", "PVLModuleNew", "PVLGroupNew", "PVLObjectNew", "PVLMultiDict", "dict"}
 
 
+def rule_token_init(repo, res, rule="TOKEN-INIT"):
+    """A Token consults the grammar and the decoder it was given: in Token.__init__, whenever the grammar (decoder)
+    argument is supplied it becomes self.grammar (self.decoder); another source is allowed only on the paths where
+    the argument is None.  The lexer builds every token as Token(lexeme, grammar=g, decoder=d); a token that takes
+    its grammar elsewhere classifies comments, white space and delimiters by another dialect's tables."""
+    from . import flow
+    init = repo.method("Token", "__init__")
+    params = [a.arg for a in init.args.args]
+    sc = flow.stmts_with_conds(init.body)
+    for attr in ("grammar", "decoder"):
+        if attr not in params:
+            raise AnalysisError(f"anchor vanished: parameter {attr} of Token.__init__")
+        assigns = [(st, c) for st, c in sc if isinstance(st, ast.Assign) and any(norm(t) == f"self.{attr}" for t in st.targets)]
+        res.floor(f"assignments of self.{attr} in Token.__init__", len(assigns), 1)
+
+        def is_none(t, p, attr=attr):
+            return isinstance(t, ast.Compare) and len(t.ops) == 1 and norm(t.left) == attr and norm(t.comparators[0]) == "None" \
+                and ((isinstance(t.ops[0], ast.Is) and p) or (isinstance(t.ops[0], ast.IsNot) and not p))
+        bad = [st for st, c in assigns if norm(st.value) != attr and not flow.holds(c, is_none)]
+        direct = [st for st, c in assigns if norm(st.value) == attr]
+        ok = not bad and bool(direct)
+        res.oblige(rule, f"Token.__init__: a supplied {attr} argument is the token's {attr} (other sources only when it is None)", ok=ok)
+        if not ok:
+            what = f"`{norm(bad[0], 60)}` on a path where {attr} may be given" if bad else f"self.{attr} = {attr} is gone"
+            res.add(Finding(rule, "Token.__init__", f"self.{attr}",
+                            f"Token.__init__ does not keep the {attr} it is given ({what}): a token built by the lexer as "
+                            f"Token(lexeme, grammar=g, decoder=d) classifies its text by another object's tables -- comments, "
+                            "white space, delimiters and keywords of the caller's grammar are not recognised",
+                            where=f"pvl/token.py:{(bad[0] if bad else init).lineno}"))
+
+
+def _token_calls(stmts):
+    """names, in source order, of the self.<production>(..., tokens) calls of a statement list"""
+    out = []
+    for st in stmts:
+        calls = [n for n in ast.walk(st) if isinstance(n, ast.Call) and isinstance(n.func, ast.Attribute)
+                 and norm(n.func.value) == "self" and any(isinstance(a, ast.Name) and a.id == "tokens" for a in n.args)]
+        calls.sort(key=lambda n: (n.lineno, n.col_offset))
+        out += [(n.func.attr, tuple(norm(a) for a in n.args)) for n in calls]
+    return out
+
+
+def rule_hook_tail(repo, res):
+    """HOOK-TAIL (sibling agreement): the empty-value repair of OmniParser.parse_module_post_hook re-reads the rest of
+    an assignment after its '=' by hand ("we must reproduce the last part of parse-assignment"); the productions it
+    calls on the token stream around parse_value must be the ones PVLParser.parse_assignment_statement and
+    parse_around_equals call there -- otherwise the statement after a missing value is parsed by another grammar
+    than every other statement (a ';' not consumed, a comment not skipped)."""
+    pa = repo.method("PVLParser", "parse_assignment_statement")
+    seq = _token_calls(pa.body)
+    names = [n for n, _ in seq]
+    if "parse_value" not in names or "parse_around_equals" not in names:
+        raise AnalysisError("anchor vanished: parse_around_equals / parse_value calls of PVLParser.parse_assignment_statement")
+    after_ref = seq[names.index("parse_value") + 1:]
+    ae = repo.method("PVLParser", "parse_around_equals")
+    # what parse_around_equals does after the '=' is found: the calls that follow its `parse_WSC_until("=", tokens)` test
+    aseq = _token_calls(ae.body)
+    eq = [i for i, (n, a) in enumerate(aseq) if n == "parse_WSC_until" and a and a[0] in ("'='", '"="')]
+    if not eq:
+        raise AnalysisError("anchor vanished: parse_WSC_until('=', tokens) in PVLParser.parse_around_equals")
+    before_ref = aseq[eq[0] + 1:]
+    hook = repo.method("OmniParser", "parse_module_post_hook")
+    tries = [t for t in ast.walk(hook) if isinstance(t, ast.Try) and any(n == "parse_value" for n, _ in _token_calls(t.body))]
+    # innermost try that holds the parse_value call
+    tries.sort(key=lambda t: len(list(ast.walk(t))))
+    res.floor("try blocks of parse_module_post_hook that re-read a value", len(tries), 1)
+    hseq = _token_calls(tries[0].body)
+    hn = [n for n, _ in hseq]
+    k = hn.index("parse_value")
+    ok_after = hseq[k + 1:] == after_ref
+    ok_before = hseq[:k] == before_ref
+    res.oblige("HOOK-TAIL", f"parse_module_post_hook: after parse_value it calls {[n for n, _ in after_ref]} like parse_assignment_statement", ok=ok_after)
+    if not ok_after:
+        res.add(Finding("HOOK-TAIL", "OmniParser.parse_module_post_hook", "after the re-read value",
+                        f"after re-reading the value, the repair hook calls {[f'{n}({', '.join(a)})' for n, a in hseq[k + 1:]]} where "
+                        f"parse_assignment_statement calls {[f'{n}({', '.join(a)})' for n, a in after_ref]}: the statement that follows a "
+                        "missing value is not finished the way every other assignment is (its statement delimiter stays in the "
+                        "stream and no production accepts it)", where=f"pvl/parser.py:{tries[0].lineno}"))
+    res.oblige("HOOK-TAIL", f"parse_module_post_hook: before parse_value it calls {[n for n, _ in before_ref]} like parse_around_equals after '='", ok=ok_before)
+    if not ok_before:
+        res.add(Finding("HOOK-TAIL", "OmniParser.parse_module_post_hook", "before the re-read value",
+                        f"before re-reading the value, the repair hook calls {[f'{n}({', '.join(a)})' for n, a in hseq[:k]]} where "
+                        f"parse_around_equals calls {[f'{n}({', '.join(a)})' for n, a in before_ref]} after the '='",
+                        where=f"pvl/parser.py:{tries[0].lineno}"))
+
+
+def rule_h3(repo, res, rule="H3"):
+    """H3: a quantity class that refuses a units text makes decode_quantity raise QuantityError, and that error must
+    reach the caller: QuantityError must not be a subclass of an exception class the parser's productions catch
+    (ValueError, StopIteration, ... -- read from the except clauses of pvl/parser.py), or parse_value swallows it,
+    returns the bare number and drops the units token: a value-with-units silently stops being an instance of the
+    substitute class."""
+    from .tokproto import ExcLattice
+    lat = ExcLattice(repo)
+    if "QuantityError" not in repo.modules["exceptions"].classes:
+        raise AnalysisError("anchor vanished: exceptions.QuantityError")
+    dq = repo.method("PVLDecoder", "decode_quantity")
+    raised = [n for n in ast.walk(dq) if isinstance(n, ast.Raise) and n.exc is not None and "QuantityError" in norm(n.exc)]
+    res.floor("raise QuantityError in PVLDecoder.decode_quantity", len(raised), 1)
+    caught = set()
+    for cname, cnode in repo.modules["parser"].classes.items():
+        for h in ast.walk(cnode):
+            if isinstance(h, ast.ExceptHandler) and h.type is not None and \
+                    not (len(h.body) == 1 and isinstance(h.body[0], ast.Raise) and h.body[0].exc is None):   # `except X: raise` passes it on
+                for t in (h.type.elts if isinstance(h.type, ast.Tuple) else [h.type]):
+                    caught.add(norm(t).split(".")[-1])
+    caught -= {"Exception", "BaseException"}
+    res.floor("exception classes caught by parser productions", len(caught), 2)
+    anc = [c for c in sorted(caught) if c != "QuantityError" and lat.issub("QuantityError", c)]
+    ok = not anc
+    res.oblige(rule, f"QuantityError is not a subclass of an exception the parser's productions catch ({sorted(caught)})", ok=ok)
+    if not ok:
+        res.add(Finding(rule, "exceptions.QuantityError", f"subclass of {anc[0]}",
+                        f"QuantityError derives from {anc[0]}, which the parser's productions catch (`except ({', '.join(sorted(caught))})` "
+                        "clauses of pvl/parser.py): when the caller's quantity class refuses a units text, parse_value swallows the "
+                        "error, returns the bare number and drops the units token instead of reporting it",
+                        where=f"pvl/exceptions.py:{repo.modules['exceptions'].classes['QuantityError'].lineno}"))
+
+
+def rule_aggcls(repo, res, rule="H1"):
+    """group keywords build the group class, object keywords the object class (C03: the kind of block in the tree;
+    C18: the substitute container classes)"""
+    from . import canon
+    repo.method("PVLParser", "aggregation_cls")
+    ac = canon.canon_method(repo, "PVLParser", "aggregation_cls")
+    # each return of the function itself (not of a nested def) and the grammar tables its guards consult:
+    # enclosing `if` tests and `for` iterables on the way to the return
+    par = {}
+    for n in ast.walk(ac):
+        for ch in ast.iter_child_nodes(n):
+            par[ch] = n
+    rets, guards = [], {}
+    for r in ast.walk(ac):
+        if not isinstance(r, ast.Return) or r.value is None:
+            continue
+        p, inner, tabs = par.get(r), False, set()
+        child = r
+        while p is not None and p is not ac:
+            if isinstance(p, (ast.FunctionDef, ast.Lambda)):
+                inner = True
+            g = None
+            if isinstance(p, ast.If) and child in p.body:
+                g = p.test
+            elif isinstance(p, ast.For) and child in p.body:
+                g = p.iter
+            if g is not None:
+                for x in ast.walk(g):
+                    if isinstance(x, ast.Attribute) and norm(x.value) == "self.grammar":
+                        tabs.add(x.attr)
+                    # a local predicate (nested def / lambda) that closes over nothing but the begin keyword is followed
+            child, p = p, par.get(p)
+        if inner:
+            continue
+        rets.append(norm(r.value))
+        guards.setdefault(norm(r.value), set()).update(tabs)
+    ok = sorted(set(rets)) == ["self.grpcls()", "self.objcls()"] and guards.get("self.grpcls()") == {"group_keywords"} \
+        and guards.get("self.objcls()") == {"object_keywords"}
+    res.oblige(rule, "PVLParser.aggregation_cls: group keywords -> self.grpcls(), object keywords -> self.objcls()", ok=ok)
+    if not ok:
+        res.add(Finding(rule, "PVLParser.aggregation_cls", "keyword -> class", f"aggregation_cls returns {rets}: groups and objects "
+                        "get the wrong container class", where=f"pvl/parser.py:{ac.lineno}"))
+
+
 def rule_h1(repo, res):
     """H1: on value paths of decoder.py / parser.py nothing constructs float, Quantity or a pvl container directly --
     only self.real_cls, self.quantity_cls, self.modcls / grpcls / objcls (and the text of a real reaches real_cls
@@ -87,45 +250,7 @@ def rule_h1(repo, res):
     if not ok:
         res.add(Finding("H1", "PVLParser.parse_module", "self.modcls()", "parse_module no longer builds the caller's module class",
                         where=f"pvl/parser.py:{pm.lineno}"))
-    from . import canon
-    repo.method("PVLParser", "aggregation_cls")
-    ac = canon.canon_method(repo, "PVLParser", "aggregation_cls")
-    # each return of the function itself (not of a nested def) and the grammar tables its guards consult:
-    # enclosing `if` tests and `for` iterables on the way to the return
-    par = {}
-    for n in ast.walk(ac):
-        for ch in ast.iter_child_nodes(n):
-            par[ch] = n
-    rets, guards = [], {}
-    for r in ast.walk(ac):
-        if not isinstance(r, ast.Return) or r.value is None:
-            continue
-        p, inner, tabs = par.get(r), False, set()
-        child = r
-        while p is not None and p is not ac:
-            if isinstance(p, (ast.FunctionDef, ast.Lambda)):
-                inner = True
-            g = None
-            if isinstance(p, ast.If) and child in p.body:
-                g = p.test
-            elif isinstance(p, ast.For) and child in p.body:
-                g = p.iter
-            if g is not None:
-                for x in ast.walk(g):
-                    if isinstance(x, ast.Attribute) and norm(x.value) == "self.grammar":
-                        tabs.add(x.attr)
-                    # a local predicate (nested def / lambda) that closes over nothing but the begin keyword is followed
-            child, p = p, par.get(p)
-        if inner:
-            continue
-        rets.append(norm(r.value))
-        guards.setdefault(norm(r.value), set()).update(tabs)
-    ok = sorted(set(rets)) == ["self.grpcls()", "self.objcls()"] and guards.get("self.grpcls()") == {"group_keywords"} \
-        and guards.get("self.objcls()") == {"object_keywords"}
-    res.oblige("H1", "PVLParser.aggregation_cls: group keywords -> self.grpcls(), object keywords -> self.objcls()", ok=ok)
-    if not ok:
-        res.add(Finding("H1", "PVLParser.aggregation_cls", "keyword -> class", f"aggregation_cls returns {rets}: groups and objects "
-                        "get the wrong container class", where=f"pvl/parser.py:{ac.lineno}"))
+    rule_aggcls(repo, res)
     init = repo.method("PVLParser", "__init__")
     for attr, param in (("modcls", "module_class"), ("grpcls", "group_class"), ("objcls", "object_class")):
         ok = any(isinstance(x, ast.Assign) and norm(x.targets[0]) == f"self.{attr}" and
